@@ -1,11 +1,13 @@
 //@include prelude/strstruct_header.rs
 // Unit scan_select — property C13, SELECTION part (+ C11 no panic, C12 termination) of the workspace scan:
 //   src/fixtures/scanner.rs  const SKIP_DIRECTORIES (proved == skip_names()), should_skip_directory (S1),
-//                            scan_workspace_with_excludes (S2 collection, S3 analysis of selected ∩ readable, S4 stored
-//                            root / missing root), scan_workspace.
+//                            scan_workspace_with_excludes (S2 collection, S3 analysis of the collected files that are
+//                            NOT already in the file cache (open documents, C10) and readable, S4 stored root / missing
+//                            root), scan_workspace.
 //   L1: final state == op_scan(old state, root, patterns)  (operational spec below + prelude/scansel_spec.rs)
 //   L2: prelude/scansel_l2.rs (precisely / never inside an ignored directory / relocation / excludes only remove) and
-//       the lemmas at the end of this file (unreadable files are skipped without affecting the rest).
+//       the lemmas at the end of this file (unreadable files are skipped without affecting the rest; C10: an open
+//       document is left alone, every canonical path is analysed at most once).
 //   assumed: prelude/scansel_shims.rs (walkdir, strip_prefix, canonicalize, to_string_lossy, glob matches,
 //       read_to_string, AtomicUsize, Mutex::lock, Result::unwrap_or{,_else}), prelude/scansel_str.rs (str::starts_with /
 //       ends_with / contains), the seven @wrapexpr helpers below (OsStr / io::ErrorKind expressions), the four callee
@@ -45,7 +47,10 @@ broadcast use {axiom_path_as_path, axiom_pathbuf_ref_as_path, axiom_spat_str, le
 //@dbstruct definitions file_definitions usages usage_by_fixture file_cache undeclared_fixtures imports canonical_path_cache definitions_version site_packages_paths editable_install_roots workspace_root plugin_fixture_files
 
 // ---- the database state the scan hands to its callees -------------------------------------------------------------
-/// every modelled field except workspace_root (the one field the function under contract writes itself)
+/// every modelled field except workspace_root (the one field the function under contract writes itself) and
+/// canonical_path_cache (a memo cache: get_canonical_path fills it through `&self`, also for files the scan then leaves
+/// alone; its content is the subject of unit memo_keys and no part of the outcome stated here — the field stays in the
+/// struct so that a direct write by the scan is still seen: phase 1 keeps `*self` unchanged)
 pub struct Rest {
     pub definitions: DashMap<String, Vec<FixtureDefinition>>,
     pub file_definitions: DashMap<PathBuf, HashSet<String>>,
@@ -54,7 +59,6 @@ pub struct Rest {
     pub file_cache: DashMap<PathBuf, String>,
     pub undeclared_fixtures: DashMap<PathBuf, Vec<UndeclaredFixture>>,
     pub imports: DashMap<PathBuf, HashSet<String>>,
-    pub canonical_path_cache: DashMap<PathBuf, PathBuf>,
     pub definitions_version: AtomicU64,
     pub site_packages_paths: Vec<PathBuf>,
     pub editable_install_roots: Vec<EditableInstall>,
@@ -69,15 +73,27 @@ pub uninterp spec fn eff_reanalyze(r: Rest, ws: Option<PV>, file: PV, text: Seq<
 pub uninterp spec fn eff_venv(r: Rest, ws: Option<PV>, root: PV) -> Rest;                       // scan_venv_fixtures
 pub uninterp spec fn eff_imports(r: Rest, ws: Option<PV>, root: PV) -> Rest;                    // scan_imported_fixture_modules
 
-/// (S3) phase 2, sequential reading: the collected files in order; a file is analysed (fresh) with the text
-/// read_to_string returns for it; a file that cannot be read (or is not UTF-8) contributes nothing
+/// the keys of the file cache: the canonical paths of the documents whose text the database holds (opened in the
+/// editor, or analysed earlier)
+pub open spec fn cache_keys(r: Rest) -> Set<PV> { r.file_cache.m().dom() }
+/// one step of phase 2 on a collected file: left alone when its canonical path is already a file-cache key (C10: the
+/// editor's buffer stays indexed exactly once — the disk text is neither read nor analysed); otherwise analysed
+/// (fresh) with the text read_to_string returns; a file that cannot be read (or is not UTF-8) contributes nothing
+pub open spec fn op_step(r: Rest, ws: Option<PV>, f: PV) -> Rest {
+    if cache_keys(r).contains(canon(f)) { r } else { match fs_read(f) { Some(t) => eff_fresh(r, ws, f, t), None => r } }
+}
+/// (S3) phase 2, sequential reading: the collected files in order
 pub open spec fn op_analyse(r: Rest, ws: Option<PV>, files: Seq<PV>) -> Rest
     decreases files.len()
 {
-    if files.len() == 0 { r } else {
-        let r1 = op_analyse(r, ws, files.drop_last());
-        match fs_read(files.last()) { Some(t) => eff_fresh(r1, ws, files.last(), t), None => r1 }
-    }
+    if files.len() == 0 { r } else { op_step(op_analyse(r, ws, files.drop_last()), ws, files.last()) }
+}
+/// what analyze_file_fresh / analyze_file do to the KEYS of the file cache (insert under the canonical path, then
+/// evict_cache_if_needed): nothing but k is added; while the cache holds at most MAX_FILE_CACHE_SIZE entries nothing
+/// is evicted, so k IS a key afterwards
+pub open spec fn cache_step(r: Rest, k: PV, r2: Rest) -> bool {
+    &&& cache_keys(r2).subset_of(cache_keys(r).insert(k))
+    &&& cache_keys(r).insert(k).len() <= max_file_cache() ==> cache_keys(r2) == cache_keys(r).insert(k)
 }
 /// (S4) the workspace root that is stored: the canonical form of the root, else the root as given
 pub open spec fn op_stored_root(root: PV) -> PV { match fs_canonical(root) { Some(c) => c, None => root } }
@@ -91,7 +107,7 @@ impl FixtureDatabase {
     pub open spec fn rest(&self) -> Rest {
         Rest { definitions: self.definitions, file_definitions: self.file_definitions, usages: self.usages,
                usage_by_fixture: self.usage_by_fixture, file_cache: self.file_cache, undeclared_fixtures: self.undeclared_fixtures,
-               imports: self.imports, canonical_path_cache: self.canonical_path_cache, definitions_version: self.definitions_version,
+               imports: self.imports, definitions_version: self.definitions_version,
                site_packages_paths: self.site_packages_paths, editable_install_roots: self.editable_install_roots,
                plugin_fixture_files: self.plugin_fixture_files }
     }
@@ -100,16 +116,24 @@ impl FixtureDatabase {
     // ---- callee stubs: ASSUMED frame contracts with an abstract effect (C1..C4 in the report).  They are weaker than
     // the contracts proved for analyze_file / analyze_file_fresh in unit analyze (which speak about the content of the
     // index and carry a no-wrap precondition on the version counter) and for scan_imported_fixture_modules in unit
-    // scan_imports: the state becomes eff_*(..) of what the callee is given; workspace_root is not written.
+    // scan_imports: the state becomes eff_*(..) of what the callee is given; workspace_root is not written; C1 also says
+    // what happens to the KEYS of file_cache (cache_step), C5 is get_canonical_path as an abstract function of the path.
     #[verifier::external_body]
     pub(crate) fn analyze_file_fresh(&mut self, file_path: PathBuf, content: &str)
         ensures final(self).rest() == eff_fresh(old(self).rest(), old(self).ws(), pbv(&file_path), content@),
             final(self).workspace_root == old(self).workspace_root,
+            // the text is stored in file_cache under the canonical path (then evict_cache_if_needed)
+            cache_step(old(self).rest(), canon(pbv(&file_path)), final(self).rest()),
     { unimplemented!() }
     #[verifier::external_body]
     pub fn analyze_file(&mut self, file_path: PathBuf, content: &str)
         ensures final(self).rest() == eff_reanalyze(old(self).rest(), old(self).ws(), pbv(&file_path), content@),
             final(self).workspace_root == old(self).workspace_root,
+    { unimplemented!() }
+    /// C5: `&self` — the write to canonical_path_cache (a memo, interior mutability) is not modelled
+    #[verifier::external_body]
+    pub(crate) fn get_canonical_path(&self, path: PathBuf) -> (r: PathBuf)
+        ensures pbv(&r) == canon(pbv(&path)),
     { unimplemented!() }
     #[verifier::external_body]
     fn scan_venv_fixtures(&mut self, root_path: &Path)
@@ -132,7 +156,7 @@ impl FixtureDatabase {
 @*/
 
 /*@ extract src/fixtures/scanner.rs scan_workspace_with_excludes
-@tags C13 C11 C12
+@tags C13 C10 C11 C12
 @recv mut
 @closure unwrap_or_else:1 |_e: std::io::Error| -> (r: PathBuf) ensures pbv(&r) == pv(root_path)
 @closure filter_entry:1 |entry: &DirEntry| -> (b: bool) ensures b == entry_pred(*entry)
@@ -143,7 +167,7 @@ impl FixtureDatabase {
 @wrapexpr 1 `exclude_patterns.iter().any(|p| p.matches(&relative_str))` => `Self::vp_matches_any(exclude_patterns, &relative_str)` with fn vp_matches_any(exclude_patterns: &[Pattern], relative_str: &std::borrow::Cow<'_, str>) -> (r: bool) ensures r == any_glob_match(pat_views(exclude_patterns@), cow_pv(*relative_str))
 @wrapexpr 1 `path.file_name().and_then(|n| n.to_str())` => `Self::vp_file_name_str(path)` with fn vp_file_name_str<'a>(path: &'a Path) -> (r: Option<&'a str>) ensures (match r { Some(s) => Some(s@), None => None::<Seq<char>> }) == file_name_v(pv(path))
 @wrapexpr 1 `err.kind() == std::io::ErrorKind::PermissionDenied` => `Self::vp_io_err_is_perm(&err)` with fn vp_io_err_is_perm(err: &std::io::Error) -> (r: bool)
-@replace 1 `files_to_process.par_iter().for_each(|path| {` => `for path in it2: files_to_process.iter() invariant it2.seq() == files_to_process@.as_ref(), files == pbv_seq(files_to_process@), self.workspace_root == db1.workspace_root, self.rest() == op_analyse(db1.rest(), db1.ws(), files.take(it2.index@ as int)) {`
+@replace 1 `files_to_process.par_iter().for_each(|path| {` => `for path in it2: files_to_process.iter() invariant it2.seq() == files_to_process@.as_ref(), files == pbv_seq(files_to_process@), self.workspace_root == db1.workspace_root, self.rest() == op_analyse(db1.rest(), db1.ws(), files.take(it2.index@ as int)) { proof { let k = it2.index@ as int; assert(*path == files_to_process@[k]); assert(files.take(k + 1).drop_last() =~= files.take(k)); assert(files.take(k + 1).last() == pbv(path)); }`
 @replace 1 `}); let errors =` => `} let errors =`
 @sig
     requires
@@ -190,13 +214,6 @@ impl FixtureDatabase {
 @before error_count 1
     let ghost files = pbv_seq(files_to_process@);
     proof { assert(files.take(0) =~= Seq::<PV>::empty()); }
-@after read_to_string 1
-    proof {
-        let k = it2.index@ as int;
-        assert(*path == files_to_process@[k]);
-        assert(files.take(k + 1).drop_last() =~= files.take(k));
-        assert(files.take(k + 1).last() == pbv(path));
-    }
 @before permission_errors 1
     proof { assert(files.take(files.len() as int) =~= files); }
 @*/
@@ -227,7 +244,7 @@ impl FixtureDatabase {
 @wrapexpr 1 `exclude_patterns.iter().any(|p| p.matches(&relative_str))` => `Self::vp_matches_any_c(exclude_patterns, &relative_str)` with fn vp_matches_any_c(exclude_patterns: &[Pattern], relative_str: &std::borrow::Cow<'_, str>) -> (r: bool) ensures r == any_glob_match(pat_views(exclude_patterns@), cow_pv(*relative_str))
 @wrapexpr 1 `path.file_name().and_then(|n| n.to_str())` => `Self::vp_file_name_str_c(path)` with fn vp_file_name_str_c<'a>(path: &'a Path) -> (r: Option<&'a str>) ensures (match r { Some(s) => Some(s@), None => None::<Seq<char>> }) == file_name_v(pv(path))
 @wrapexpr 1 `err.kind() == std::io::ErrorKind::PermissionDenied` => `Self::vp_io_err_is_perm_c(&err)` with fn vp_io_err_is_perm_c(err: &std::io::Error) -> (r: bool)
-@replace 1 `files_to_process.par_iter().for_each(|path| {` => `for path in it2: files_to_process.iter() invariant it2.seq() == files_to_process@.as_ref(), files == pbv_seq(files_to_process@), self.workspace_root == db1.workspace_root, self.rest() == op_analyse(db1.rest(), db1.ws(), files.take(it2.index@ as int)) {`
+@replace 1 `files_to_process.par_iter().for_each(|path| {` => `for path in it2: files_to_process.iter() invariant it2.seq() == files_to_process@.as_ref(), files == pbv_seq(files_to_process@), self.workspace_root == db1.workspace_root, self.rest() == op_analyse(db1.rest(), db1.ws(), files.take(it2.index@ as int)) { proof { let k = it2.index@ as int; assert(*path == files_to_process@[k]); assert(files.take(k + 1).drop_last() =~= files.take(k)); assert(files.take(k + 1).last() == pbv(path)); }`
 @replace 1 `}); let errors =` => `} let errors =`
 @sig
     requires
@@ -273,13 +290,6 @@ impl FixtureDatabase {
 @before error_count 1
     let ghost files = pbv_seq(files_to_process@);
     proof { assert(files.take(0) =~= Seq::<PV>::empty()); }
-@after read_to_string 1
-    proof {
-        let k = it2.index@ as int;
-        assert(*path == files_to_process@[k]);
-        assert(files.take(k + 1).drop_last() =~= files.take(k));
-        assert(files.take(k + 1).last() == pbv(path));
-    }
 @before permission_errors 1
     proof { assert(files.take(files.len() as int) =~= files); }
 @*/
@@ -287,17 +297,11 @@ impl FixtureDatabase {
 
 // ---- L2 on the database effect: property C13, "unreadable or non-UTF-8 files are skipped without affecting the rest"
 pub open spec fn readable_fn() -> spec_fn(PV) -> bool { |p: PV| fs_read(p) is Some }
-/// every file of the list analysed (fresh) with its disk text, in order — defined for lists of readable files
-pub open spec fn op_analyse_all(r: Rest, ws: Option<PV>, files: Seq<PV>) -> Rest
-    decreases files.len()
-{
-    if files.len() == 0 { r } else { eff_fresh(op_analyse_all(r, ws, files.drop_last()), ws, files.last(), fs_read(files.last())->0) }
-}
 //@tags C13
-/// phase 2 analyses exactly the collected files whose read succeeds (selected ∩ readable), each once, in order, each
-/// with the text read from disk: the result is the one obtained from the list WITHOUT the unreadable files
+/// phase 2 on the collected list is phase 2 on the list WITHOUT the unreadable files: a file whose read fails is
+/// skipped, and the files after it meet exactly the state they would have met without it
 pub proof fn lemma_C13_unreadable_files_are_skipped(r: Rest, ws: Option<PV>, files: Seq<PV>)
-    ensures op_analyse(r, ws, files) == op_analyse_all(r, ws, files.filter(readable_fn())),
+    ensures op_analyse(r, ws, files) == op_analyse(r, ws, files.filter(readable_fn())),
     decreases files.len(),
 {
     reveal(Seq::filter);
@@ -345,6 +349,151 @@ pub proof fn lemma_C13_missing_root_is_noop(r: Rest, root: PV, pats: Seq<Seq<cha
     requires !fs_exists(root) ensures op_scan(r, root, pats) == r
 {}
 
+// ---- L2, property C10 (and C13 "each once"): a document the editor already opened is left alone by the scan -------
+/// the state phase 2 has reached when it comes to the i-th collected file
+pub open spec fn state_at(r: Rest, ws: Option<PV>, files: Seq<PV>, i: int) -> Rest { op_analyse(r, ws, files.take(i)) }
+/// the i-th collected file IS analysed (analyze_file_fresh is called on it): its canonical path is not a file-cache key
+/// when its turn comes, and its read succeeds
+pub open spec fn analysed_at(r: Rest, ws: Option<PV>, files: Seq<PV>, i: int) -> bool {
+    !cache_keys(state_at(r, ws, files, i)).contains(canon(files[i])) && fs_read(files[i]) is Some
+}
+/// HYPOTHESIS H-key (the clause C1 of the analyze_file_fresh stub, for every state): the analysis stores the text under
+/// the canonical path of the file; nothing else is added to the file cache; no eviction up to MAX_FILE_CACHE_SIZE keys
+pub open spec fn fresh_cache_step() -> bool {
+    forall|r: Rest, ws: Option<PV>, f: PV, t: Seq<char>| cache_step(r, canon(f), #[trigger] eff_fresh(r, ws, f, t))
+}
+/// the part of the database that belongs to the document with canonical path k: its cached text and its index entries
+/// (definitions / usages / undeclared / imports recorded for k) — abstract
+pub uninterp spec fn doc_part(r: Rest, k: PV) -> Rest;
+/// HYPOTHESIS H-frame (a statement about analyze_file_fresh that no stub of this unit makes): the analysis of a file
+/// whose canonical path is not k leaves the part of k alone, as long as k stays in the file cache
+pub open spec fn fresh_frames_other_docs() -> bool {
+    forall|r: Rest, ws: Option<PV>, f: PV, t: Seq<char>, k: PV|
+        canon(f) != k && cache_keys(r).contains(k) && cache_keys(eff_fresh(r, ws, f, t)).contains(k)
+            ==> #[trigger] doc_part(eff_fresh(r, ws, f, t), k) == doc_part(r, k)
+}
+/// every canonical path the run can put into the file cache, together with what is there at the start
+pub open spec fn key_universe(r: Rest, files: Seq<PV>) -> Set<PV> { cache_keys(r).union(files.map_values(canon_fn()).to_set()) }
+/// HYPOTHESIS H-fit: the file cache never has to evict during phase 2
+pub open spec fn cache_fits(r: Rest, files: Seq<PV>) -> bool { key_universe(r, files).len() <= max_file_cache() }
+
+proof fn lemma_take_step(r: Rest, ws: Option<PV>, files: Seq<PV>, i: int)
+    requires 0 <= i < files.len()
+    ensures state_at(r, ws, files, i + 1) == op_step(state_at(r, ws, files, i), ws, files[i])
+{
+    assert(files.take(i + 1).drop_last() =~= files.take(i));
+    assert(files.take(i + 1).last() == files[i]);
+}
+/// the keys only grow during phase 2 and stay inside the universe (no eviction under H-fit)
+proof fn lemma_keys_grow(r: Rest, ws: Option<PV>, files: Seq<PV>, i: int, j: int)
+    requires fresh_cache_step(), cache_fits(r, files), 0 <= i <= j <= files.len(),
+    ensures cache_keys(state_at(r, ws, files, i)).subset_of(cache_keys(state_at(r, ws, files, j))),
+        cache_keys(state_at(r, ws, files, j)).subset_of(key_universe(r, files)),
+    decreases j,
+{
+    let u = key_universe(r, files);
+    if j == 0 {
+        assert(files.take(0) =~= Seq::<PV>::empty());
+    } else {
+        lemma_keys_grow(r, ws, files, if i < j { i } else { j - 1 }, j - 1);
+        lemma_take_step(r, ws, files, j - 1);
+        let s0 = state_at(r, ws, files, j - 1);
+        let f = files[j - 1];
+        let c = canon(f);
+        assert(u.contains(c)) by { assert(files.map_values(canon_fn())[j - 1] == c); }
+        if !cache_keys(s0).contains(c) && fs_read(f) is Some {
+            let s1 = eff_fresh(s0, ws, f, fs_read(f)->0);
+            assert(cache_step(s0, c, s1));
+            assert(cache_keys(s0).insert(c).subset_of(u));
+            vstd::set_lib::lemma_len_subset(cache_keys(s0).insert(c), u);
+        }
+    }
+}
+//@tags C10 C13
+/// C10 "the index reflects the editor's content for that document exactly once - never the older on-disk content,
+/// never both" (scan side): a document whose canonical path k is a file-cache key when phase 2 starts — it was opened
+/// in the editor before the scan reached it — is LEFT ALONE: no collected path with that canonical form is analysed
+/// (its disk text is not even read), k is still a key afterwards, and (H-frame) the part of the database that belongs
+/// to k is what it was.  Needs H-key (stub clause C1) and H-fit (no eviction: beyond 2000 cached files the open
+/// document's key can be evicted and the scan then does analyse the disk text).
+pub proof fn lemma_C10_open_document_is_left_alone(r: Rest, ws: Option<PV>, files: Seq<PV>, k: PV)
+    requires fresh_cache_step(), cache_fits(r, files), cache_keys(r).contains(k),
+    ensures
+        forall|i: int| 0 <= i < files.len() && canon(#[trigger] files[i]) == k ==> !analysed_at(r, ws, files, i),
+        cache_keys(op_analyse(r, ws, files)).contains(k),
+        fresh_frames_other_docs() ==> doc_part(op_analyse(r, ws, files), k) == doc_part(r, k),
+{
+    assert(files.take(0) =~= Seq::<PV>::empty());
+    assert(files.take(files.len() as int) =~= files);
+    assert forall|i: int| 0 <= i <= files.len() implies cache_keys(#[trigger] state_at(r, ws, files, i)).contains(k) by {
+        lemma_keys_grow(r, ws, files, 0, i);
+    }
+    if fresh_frames_other_docs() { lemma_doc_part_kept(r, ws, files, k, files.len() as int); }
+}
+proof fn lemma_doc_part_kept(r: Rest, ws: Option<PV>, files: Seq<PV>, k: PV, j: int)
+    requires fresh_cache_step(), cache_fits(r, files), cache_keys(r).contains(k), fresh_frames_other_docs(), 0 <= j <= files.len(),
+    ensures doc_part(state_at(r, ws, files, j), k) == doc_part(r, k),
+    decreases j,
+{
+    if j == 0 { assert(files.take(0) =~= Seq::<PV>::empty()); } else {
+        lemma_doc_part_kept(r, ws, files, k, j - 1);
+        lemma_take_step(r, ws, files, j - 1);
+        assert(files.take(0) =~= Seq::<PV>::empty());
+        lemma_keys_grow(r, ws, files, 0, j - 1);
+        lemma_keys_grow(r, ws, files, 0, j);
+    }
+}
+//@tags C10 C13
+/// "exactly once ... never both" / C13 "each once": two collected paths with the same canonical form (the same file
+/// reached under two names) are never BOTH analysed — the analysis of the first put the key into the file cache
+/// (H-key, stub clause C1), so the second is skipped.  Without C1 (or with eviction, H-fit) this cannot be stated.
+pub proof fn lemma_C10_each_selected_file_analysed_at_most_once(r: Rest, ws: Option<PV>, files: Seq<PV>, i: int, j: int)
+    requires fresh_cache_step(), cache_fits(r, files), 0 <= i < j < files.len(), canon(files[i]) == canon(files[j]),
+    ensures !(analysed_at(r, ws, files, i) && analysed_at(r, ws, files, j)),
+{
+    if analysed_at(r, ws, files, i) {
+        let c = canon(files[i]);
+        let s0 = state_at(r, ws, files, i);
+        lemma_take_step(r, ws, files, i);
+        let s1 = eff_fresh(s0, ws, files[i], fs_read(files[i])->0);
+        assert(state_at(r, ws, files, i + 1) == s1);
+        lemma_keys_grow(r, ws, files, i, i);
+        assert(cache_step(s0, c, s1));
+        assert(key_universe(r, files).contains(c)) by { assert(files.map_values(canon_fn())[i] == c); }
+        assert(cache_keys(s0).insert(c).subset_of(key_universe(r, files)));
+        vstd::set_lib::lemma_len_subset(cache_keys(s0).insert(c), key_universe(r, files));
+        assert(cache_keys(s1).contains(c));
+        lemma_keys_grow(r, ws, files, i + 1, j);
+    }
+}
+//@tags C10 C13
+/// and a file that is neither open nor a second name of an earlier one IS analysed when its read succeeds: nothing is
+/// lost by the pre-check (keys only come from the start state and from the analyses of phase 2 itself)
+pub proof fn lemma_C10_closed_readable_file_is_analysed(r: Rest, ws: Option<PV>, files: Seq<PV>, j: int)
+    requires fresh_cache_step(), 0 <= j < files.len(), fs_read(files[j]) is Some,
+        !cache_keys(r).contains(canon(files[j])),
+        forall|i: int| 0 <= i < j ==> canon(#[trigger] files[i]) != canon(files[j]),
+    ensures analysed_at(r, ws, files, j),
+{
+    lemma_keys_from(r, ws, files, j, canon(files[j]));
+}
+proof fn lemma_keys_from(r: Rest, ws: Option<PV>, files: Seq<PV>, j: int, c: PV)
+    requires fresh_cache_step(), 0 <= j <= files.len(), !cache_keys(r).contains(c),
+        forall|i: int| 0 <= i < j ==> canon(#[trigger] files[i]) != c,
+    ensures !cache_keys(state_at(r, ws, files, j)).contains(c),
+    decreases j,
+{
+    if j == 0 { assert(files.take(0) =~= Seq::<PV>::empty()); } else {
+        lemma_keys_from(r, ws, files, j - 1, c);
+        lemma_take_step(r, ws, files, j - 1);
+        let s0 = state_at(r, ws, files, j - 1);
+        let f = files[j - 1];
+        if !cache_keys(s0).contains(canon(f)) && fs_read(f) is Some {
+            assert(cache_step(s0, canon(f), eff_fresh(s0, ws, f, fs_read(f)->0)));
+        }
+    }
+}
+
 // ---- vacuity guards: each of these must FAIL ----------------------------------------------------------------------
 /// every name is an ignored directory
 proof fn canary_every_name_is_skipped(n: Seq<char>) ensures is_skip_name(n) {}
@@ -377,6 +526,37 @@ proof fn canary_exclude_pattern_adds(root: PV, pats: Seq<Seq<char>>, it: WalkIte
 proof fn canary_unreadable_file_aborts(r: Rest, ws: Option<PV>, a: Seq<PV>, bad: PV, b: Seq<PV>)
     requires fs_read(bad) is None
     ensures op_analyse(r, ws, a + seq![bad] + b) == op_analyse(r, ws, a)
+{}
+/// the OLD behaviour: every readable collected file is analysed, open in the editor or not
+proof fn canary_every_readable_file_is_analysed(r: Rest, ws: Option<PV>, f: PV)
+    requires fs_read(f) is Some
+    ensures op_analyse(r, ws, seq![f]) == eff_fresh(r, ws, f, fs_read(f)->0)
+{
+    assert(seq![f].drop_last() =~= Seq::<PV>::empty()); assert(seq![f].last() == f);
+    reveal_with_fuel(op_analyse, 3);
+}
+/// an open document is re-read from disk after all (the pre-check looks at the raw path, not at the canonical one)
+proof fn canary_open_document_left_alone_without_canon(r: Rest, ws: Option<PV>, files: Seq<PV>, k: PV, i: int)
+    requires fresh_cache_step(), cache_fits(r, files), cache_keys(r).contains(k), 0 <= i < files.len(), files[i] == k
+    ensures !analysed_at(r, ws, files, i)
+{
+    lemma_keys_grow(r, ws, files, 0, i);
+    assert(files.take(0) =~= Seq::<PV>::empty());
+}
+/// "at most once" without the stub clause that the analysis inserts the cache key
+proof fn canary_at_most_once_without_key_clause(r: Rest, ws: Option<PV>, files: Seq<PV>, i: int, j: int)
+    requires cache_fits(r, files), 0 <= i < j < files.len(), canon(files[i]) == canon(files[j]),
+    ensures !(analysed_at(r, ws, files, i) && analysed_at(r, ws, files, j)),
+{}
+/// the open document survives eviction (no H-fit)
+proof fn canary_open_document_without_fit(r: Rest, ws: Option<PV>, files: Seq<PV>, k: PV)
+    requires fresh_cache_step(), cache_keys(r).contains(k)
+    ensures cache_keys(op_analyse(r, ws, files)).contains(k)
+{}
+/// the three hypotheses of the C10 lemmas are not contradictory
+proof fn canary_C10_hypotheses_vacuous(r: Rest, files: Seq<PV>)
+    requires fresh_cache_step(), fresh_frames_other_docs(), cache_fits(r, files)
+    ensures false
 {}
 /// files are re-analysed (analyze_file) instead of analysed fresh
 proof fn canary_reanalyze_is_fresh(r: Rest, ws: Option<PV>, f: PV, t: Seq<char>)
